@@ -33,6 +33,17 @@ CHECKS = {
  "C18": ("other", "5.18", TECH_K,
    "Partial. Constants consumed by the rounding primitive equal their definitions. The nearest-even decision is NOT decided."),
 }
+TECH_A = "static analysis: abstract interpretation (intervals + difference bounds, path-sensitive, modular big-integer layer) of the monomorphic MIR; audited-site table with machine-checked side conditions"
+CHECKS.update({
+ "C04": ("other", "5.4", TECH_A,
+   "Every panic-capable terminator (overflow/bounds/div asserts, unwrap, debug_assert!, slice indexing) reachable from parse_float::<f32|f64> in the debug-assertions+overflow-checks MIR is PROVEN unreachable/non-failing for all valid inputs (any length below 2^62, any i32 exponent) or is AUDITED with a written reason and a re-evaluated side condition over extracted constants (capacity formula, 10^19 <= 2^64, exponent ranges). Non-alloc configurations."),
+ "C07": ("other", "5.7", TECH_A + "; constant cut-off rules",
+   "Partial. (1) decimal cut-offs imply zero/infinity; (2) in the exponent-bookkeeping functions every narrowing cast is value-preserving and every non-wrapping arithmetic operator cannot overflow, in debug and release MIR (this rule found the repaired `fraction_count as i32` defect). Subnormal rounding results are NOT decided."),
+ "C08": ("other", "5.8", TECH_A,
+   "Every unsafe operation reachable from parse_float (get_unchecked, raw writes/copies/reads, pointer offsets, from_raw_parts, set_len) is within bounds / inside the initialised prefix for arbitrary bytes, any exponent, in release and debug MIR; vector invariant inductive over the modular big-integer layer. Non-alloc configurations."),
+ "C13": ("other", "5.13", TECH_A + "; visibility facts",
+   "Invariant clauses only: INV (length <= capacity, [0,length) initialised) is inductive over every safe StackVec method and friend, from every INV state, in debug and release MIR; representation private to its module. Element-wise equality with a reference sequence and ordering are NOT decided; HeapVec not analysed."),
+})
 NA = [
  ("C03", "round trip is a numerical corollary of C01/C02 on three input families; it has no code of its own and no clause whose truth is in the shape of the code"),
  ("C09", "monotonicity relates the numerical results of two runs through different algorithms; no structural clause, and per-path correct rounding is not statically decidable here"),
